@@ -542,12 +542,42 @@ def run(res, tier):
         else:
             fm_jobs += [jm, jf]
         fm_meta[k] = (s2, fp, jm, jf)
+    # the three codegen-selection flags together: Options.tla `Phase` (= apply_args: --generate first, then the
+    # --ignore-* flags, wherever they stand on the command line) against the builder calls in that order
+    cg_jobs, cg_meta = [], []
+    for gi, G in enumerate((["functions", "types"], ["functions", "types", "methods"], ["types", "vars"], BITS)):
+        for ii, ign in enumerate((["functions"], ["methods"], ["functions", "methods"])):
+            jm = {"id": "cg%d%dm" % (gi, ii), "gen": True,
+                  "setters": [["header", H], ["with_codegen_config", G]] + [["ignore_" + x] for x in ign]}
+            cg_jobs.append(jm)
+            gen = ["--generate=" + ",".join(G)]
+            igf = ["--ignore-" + x for x in ign]
+            for oi, fl in enumerate((gen + igf, igf + gen, igf[:1] + gen + igf[1:])):
+                if oi == 2 and len(igf) < 2:
+                    continue
+                jf = {"id": "cg%d%df%d" % (gi, ii, oi), "flags0": [H] + fl, "gen": True}
+                cg_jobs.append(jf)
+                cg_meta.append((jm, jf, sorted(set(G) - set(ign))))
     dflt = [{"id": "dfltm", "setters": [["header", H]], "gen": True}, {"id": "dfltf", "flags0": [H], "gen": True}]
     cli_jobs = [{"id": "cli%02d" % i, "flags0": [H] + f, "gen": True} for i, (f, _) in enumerate(CLI_ONLY)]
     cli_methods = [{"id": "clm%02d" % i, "setters": [["header", H], m], "gen": True}
                    for i, (_, m) in enumerate(CLI_ONLY) if m]
-    obs2 = run_jobs(fm_jobs + dflt + cli_jobs + cli_methods, "flags")
+    obs2 = run_jobs(fm_jobs + cg_jobs + dflt + cli_jobs + cli_methods, "flags")
     obs2.update(obs)
+    ncg = 0
+    for jm, jf, want in cg_meta:
+        am, af = obs2[jm["id"]].get("a", {}), obs2[jf["id"]].get("a", {})
+        if am.get("status") != "ok" or af.get("status") != "ok":
+            raise C.ToolError("codegen flag combination did not run: %s %s / %s %s" % (jm["setters"][1:], am.get("status"), jf["flags0"][1:], af.get("status")))
+        ncg += 1
+        wit = {"methods": jm["setters"][1:], "flags0": jf["flags0"][1:], "model_codegen_config": want}
+        if am["flags"] != af["flags"]:
+            agg.setdefault("flag-method-differ:codegen-selection:flags", []).append(dict(wit, method_flags=am["flags"], flag_flags=af["flags"]))
+        if (am.get("gen"), am.get("sha")) != (af.get("gen"), af.get("sha")):
+            agg.setdefault("flag-method-differ:codegen-selection:bindings", []).append(dict(wit, gen=[am.get("gen"), af.get("gen")]))
+        for key, det in judge(jf, obs2[jf["id"]]):
+            agg.setdefault(key if ":" in key else key + ":codegen-selection", []).append(dict(det, kind="flag-path"))
+    res.add(codegen_selection_flag_combinations=ncg)
     nfm = nrej = 0
     rejected = set()
     for k, (s2, fp, jm, jf) in fm_meta.items():
@@ -624,7 +654,7 @@ def run(res, tier):
         raise C.ToolError("self-test: a clap exit was not flagged")
     tam += 1
     res.add(tampered_observations_flagged=tam,
-            traces_validated_against_impl=len(jobs) + len(fm_jobs) + len(dflt) + len(cli_jobs))
+            traces_validated_against_impl=len(jobs) + len(fm_jobs) + len(cg_jobs) + len(dflt) + len(cli_jobs))
     for want in ("single", "pair", "seq", "sim"):
         for jid, (kind, b, j) in meta.items():
             if kind == want:
